@@ -4,7 +4,10 @@
 (b) ties: T1 constants; N1 generated node trees (real Node subclasses / synthesized classes) vs ObjModel.v:
     __pub__ names, children, parents, DFS/BFS/post-order visit orders; N2 the same on real parses;
     R1 class synthesis histories vs the registry model; B1 derivations (tracing semantics) vs build/plain/erase.
-(c) oracle on the implementation: generated annotated grammars x inputs, model parse vs plain parse.
+    D1 walker class declaration / lookup histories vs run_walkers (search order, per-class cache, __init_subclass__).
+(c) oracle on the implementation: generated annotated grammars x inputs, model parse vs plain parse;
+    W1 walker declaration / use histories: the handler of every node is the nearest walk_ method of the walker class,
+    whatever was declared or walked before; traversal orders, post-order children argument, walk() results.
 """
 from __future__ import annotations
 
@@ -1489,17 +1492,26 @@ def main():
                 'grammars (start/item/pair/group/num/word/neg/opt/wrap/tup with random annotations: none, single, A::B, '
                 'A::B::C, builtin int/float/str/bool/tuple; named, unnamed, override and named-list bodies) x generated '
                 'sentences; one grammar per risky attribute/class name (dict members, ast, Node properties, BaseNode '
-                'members, children, _private, synth-module globals); R1: random declaration histories over 4 names. '
+                'members, children, _private, synth-module globals); R1: random declaration histories over 4 names; '
+                'W1/D1: per grammar, random histories of walker class declarations (below DepthFirst/PostOrder/BreadthFirst/'
+                'NodeWalker or below an earlier, possibly already used, class; mixins; walk_<Class> / walk__<snake> / '
+                'walk_<snake> for the grammar classes, their declared bases and Node, overrides, two spellings for one class, '
+                'the four default names) interleaved with walks over synthesized-class and generated-class trees of the '
+                'grammar (instances reused), plus D1-only histories with methods named after every class of the MRO. '
                 'Non-trivial: more than one node / input longer than 3 chars / history longer than 1; distinct by content hash.')
     chk.trusted += ['the canonicaliser Canon (Python object graph -> ObjModel.value, same case order as Node._cached_children)',
                     'oracle tables: iteration order of the Python set `pub.keys() - vars(BaseNode).keys()` per node '
                     '(evaluated with the same expression), builtin constructors int/float/str/bool/tuple as finite tables',
                     'the TatSu parser itself (C01) for producing derivations; TraceSemantics marks annotated reductions',
-                    'not modelled: dataclass machinery, BoundCallable argument binding, walker name dispatch (_find_walker) '
-                    'beyond walk_Node, parseinfo/ctx']
+                    'not modelled: dataclass machinery, BoundCallable argument binding, parseinfo/ctx',
+                    'W1 oracle (own Python code): snake(), method_forms(), nearest-class resolution over type(node).__mro__, '
+                    'own pre/post/level-order traversals over children(); D1 oracle tables: util.pythonize_name per class '
+                    'name, dir(walker class) callables named walk_*/_walk_*, __bases__ of the node classes']
     chk.assumptions += ['setord is a permutation of its input minus vars(BaseNode) names (Python set semantics)',
                         'vars(node) keys are distinct (dict) and node identities in a tree are distinct (tree-shaped) for the exactly-once statements',
-                        'parent pointers are those present after children() has run on the parent (the code assigns them lazily there)']
+                        'parent pointers are those present after children() has run on the parent (the code assigns them lazily there)',
+                        'walker classes get no new walk_ methods after their class statement (no monkeypatching): [has w] is fixed; '
+                        'C07_dispatch_cache_transparent assumes that same-named node classes resolve alike (cache keyed by __qualname__)']
     st = chk.coq()
     ok, out = vlib.build_modelrun('ObjModel')
     chk.obligation('modelrun_ObjModel builds', 'build', ok, out[-500:])
